@@ -102,7 +102,11 @@ def handle (op : String) (j : Json) : Except String Json := do
             ports.all fun p => (got.lookup p) = want p side
           pure ((if okSide prov pc then [] else ["provides-semantics"]) ++
                 (if okSide req rc then [] else ["requires-semantics"]) ++
-                (if got.all (fun kv => (prov ++ req).contains kv.1) then [] else ["invented-port"]))
+                (if got.all (fun kv => (prov ++ req).contains kv.1) then [] else ["invented-port"]) ++
+                -- the resolution is a function of (configuration, port names): a match neither writes to the
+                -- user's selections nor answers differently when the same configuration object is asked again
+                (if hasField impl "selection_changed_by_match" then ["match-altered-the-configuration"] else []) ++
+                (if hasField impl "second_match_of_same_configuration" then ["same-configuration-resolved-differently"] else []))
         | _ => pure ["valid-configuration-rejected:" ++ tag]
     pure (Json.mkObj [("model", model), ("failed", clauses failed)])
   | "cpp.function" =>
